@@ -61,6 +61,7 @@ def run(facts, rep, tier):
                      ("R14.2", "same groups in the same order in header and rows"), ("R14.3", "each column shows its own field"),
                      ("R14.4", "alignment: numbers right, text left; blanks are spaces"), ("R14.5", "header, separator, rows, separator")]:
         rep.rule(rid, txt, "P")
+    rep.rule("R14.7", "each optional group is switched on exactly by its -i letter, however the letters are spread over -i occurrences", "P")
     rep.rule("R14.6", "position-exact: under every header column the row shows that column's field (or blanks), for all 32 flag sets", "P")
     rows = [b for b in facts.bodies.values() if b.name.endswith("::simple_display") and b.kind == "assoc"]
     if len(rows) != 1:
@@ -159,6 +160,7 @@ def run(facts, rep, tier):
     base = None
     # ---- R14.6: position-exact rendering by abstract interpretation (handles helpers, loops, dynamic widths)
     _layout_check(facts, rep, rb, hb, hcfg, hflag, harr)
+    _letters_check(facts, rep)
     e3_ok = not cfg.loops() and all(site_width(x) is not None for x in wblocks.values()) and \
         not any((callee_name(t) or "") in facts.bodies and any(tt["callee"].get("name") == "write_fmt" for _, tt in facts.bodies[callee_name(t)].calls())
                 for _, t in rb.calls())
@@ -517,3 +519,97 @@ def _fmt_err_edges(facts):
 def _next_fields(hcols, name):
     """PTH is three one-character age marks; SQWK's threat mark sits in the separator position"""
     return []
+
+
+LETTER_OF = {"weather": "w", "angles": "a", "speed": "s", "altitude": "A", "extra": "e"}
+
+
+def _letters_check(facts, rep):
+    """R14.7: the value of every group accessor, as a boolean function of "letter l occurs in the k-th -i argument"
+    (3 occurrences x 6 letters = 18 atoms, kept as truth tables), equals the OR over the occurrences of that group's letter."""
+    from ..absint import k3 as K3
+    from ..absint.ctx import ref_to
+    from ..absint.domain import TT, BoolV, IntV, RefV, StrV, StructV, VecV, bit_is_const, bit_or, tt_setup, tt_support
+    from ..absint.models2 import charset
+    from ..mirq import operand_place
+    letters = ["w", "a", "s", "A", "e", "Q"]
+    NOCC = 3
+    # --- the construction site: a call outside DisplayFlags' own impl whose result is a DisplayFlags
+    sites = []
+    for b in facts.bodies.values():
+        if b.kind == "promoted" or "::tests::" in b.name or "DisplayFlags" in b.name:
+            continue
+        for bi, t in b.calls():
+            d = t["dest"]
+            if not d["proj"] and b.locals[d["local"]]["ty"]["s"].endswith("DisplayFlags") and callee_name(t) in facts.bodies:
+                sites.append((b, bi, t))
+    if len(sites) != 1:
+        raise Broken("C14 anchor: %d construction sites of DisplayFlags outside its impl" % len(sites))
+    b, bi, t = sites[0]
+    du = DefUse(b)
+    atoms = tt_setup(["%s#%d" % (l, k + 1) for k in range(NOCC) for l in letters])
+    occ = []
+    for k in range(NOCC):
+        occ.append(charset({l: atoms[k * len(letters) + i] for i, l in enumerate(letters)}))
+
+    def ev(I, st, e):
+        """evaluate the argument's expression tree on the abstract -i list"""
+        if e[0] == "arg" and e[2] and e[2][-1] == "display_info":
+            return ref_to(I, st, VecV(occ))
+        if e[0] == "const" and isinstance(e[1], str):
+            return StrV("lit", text=e[1])
+        if e[0] == "call":
+            nm = e[1].split("::")[-1]
+            args = [ev(I, st, a) for a in e[2]]
+            if nm in ("deref", "as_ref", "as_slice", "borrow", "as_str", "as_mut", "to_owned", "clone", "to_string", "to_vec") and args:
+                return args[0]
+            if nm in ("concat", "join"):
+                from ..absint.models2 import m_concat_cs
+                st2, v = m_concat_cs(I, st, {"name": nm}, args, None, {})
+                return ref_to(I, st, v)
+        raise Broken("C14 R14.7: the -i option reaches the display flags through %s" % show(e)[:160])
+
+    res = {}
+
+    def build(I, st):
+        return [ev(I, st, expr(du, a)) for a in t["args"]]
+    try:
+        I, flags, st = K3.run_fn(facts, callee_name(t), build, "flags from -i letters")
+    finally:
+        pass
+    n = 0
+    if flags is None:
+        rep.add(Finding("R14.7", "display flags construction panics", "%s panics for every -i list" % callee_name(t), span_loc(t.get("span"))))
+        rep.instances("R14.7", 1, floor=1)
+        return
+    for name, letter in LETTER_OF.items():
+        n += 1
+        fn = [x for x in facts.bodies.values() if x.name.endswith("DisplayFlags::" + name)]
+        if len(fn) != 1:
+            raise Broken("C14 anchor: DisplayFlags::%s" % name)
+        want = 0
+        for k in range(NOCC):
+            want = bit_or(want, atoms[k * len(letters) + letters.index(letter)])
+        I2, v, st2 = K3.run_fn(facts, fn[0].name, lambda I, st: [ref_to(I, st, flags)], "flag %s of -i letters" % name)
+        got = v.bit if isinstance(v, BoolV) else None
+        if isinstance(v, BoolV) and v.val is not None:
+            got = 1 if v.val else 0
+        ok = got is not None and got == want
+        rep.oblige(ok, ("letter", name))
+        if not ok:
+            why = "is not a function of the -i letters alone (%r)" % (v,)
+            if got is not None and (bit_is_const(got) or (isinstance(got, tuple) and got[0] == "f")):
+                gm = 0 if got == 0 else (TT["all"] if got == 1 else got[1])
+                diff = gm ^ want[1]
+                a = (diff & -diff).bit_length() - 1          # an assignment on which they differ
+                given = []
+                for k in range(NOCC):
+                    ls = "".join(l for i, l in enumerate(letters) if (a >> (k * len(letters) + i)) & 1)
+                    if ls:
+                        given.append("-i " + ls)
+                why = "with %s the group is %s although its letter '%s' is %s" % (
+                    " ".join(given) or "no -i letters", "shown" if (gm >> a) & 1 else "hidden", letter, "given" if (want[1] >> a) & 1 else "not given")
+            rep.add(Finding("R14.7", "group %s does not follow its -i letter" % name,
+                            "DisplayFlags::%s() as built by %s: %s" % (name, callee_name(t), why), span_loc(t.get("span"))))
+    rep.instances("R14.7", n, floor=5, what="group accessors compared as boolean functions of 18 letter-occurrence atoms")
+    rep.sample({"rule": "R14.7", "construction": show(("call", callee_name(t), tuple(expr(du, a) for a in t["args"])))[:200], "occurrences": NOCC})
